@@ -568,6 +568,12 @@ func (r *scenRun) doRound(ri int, rd *Round) {
 	atomic.StoreInt32(&r.round, int32(ri))
 	r.log.add(Ev{K: "round", R: ri, X: rd.Kind})
 	probe := rd.Kind == "probe"
+	if probe {
+		r.countPools()
+		if r.isAborted() {
+			return
+		}
+	}
 	q := r.qualityTask(rd.Burst, probe)
 	if rd.Reader == "lazy" {
 		q.lazy = rd.LazyAfter
@@ -672,8 +678,9 @@ func (r *scenRun) doRound(ri int, rd *Round) {
 	if inj != nil && inj.Kind == "release" {
 		return
 	}
-	if removedByInj {
-		// let the collectors reach their first tick so that late reports for the removed task exist
+	if removedByInj || rd.Reader == "lazy" {
+		// let the collectors reach their first tick so that late reports for the removed task exist;
+		// a parked reader cannot be waited for
 		time.Sleep(time.Until(t0.Add(1000 * time.Millisecond)))
 	} else {
 		ok := r.waitFor(r.watchdog, func() bool {
@@ -748,6 +755,23 @@ func (r *scenRun) lateCollector(inj *Inject) (*node, error) {
 		r.mu.Unlock()
 	}
 	return n, err
+}
+
+// countPools calls CollectorPool.Count() (the call /repo/fractal.go makes every minute) on every pool that was
+// not stopped; it is a judged client call like any other.
+func (r *scenRun) countPools() {
+	if !r.topDead {
+		r.call("count", Ev{N: "top", X: "CollectorPool"}, true, func() { r.topPool.Count() })
+	}
+	for _, name := range r.names() {
+		if r.isAborted() {
+			return
+		}
+		n := r.node(name)
+		if n.relay && n.pool != nil && n.stopPool != nil && !n.dead {
+			r.call("count", Ev{N: name, X: "CollectorPool"}, true, func() { n.pool.Count() })
+		}
+	}
 }
 
 func (r *scenRun) linksDown(keys ...string) {
@@ -876,6 +900,10 @@ func (r *scenRun) inject(inj *Inject, expected []*node) []*node {
 		r.released = true
 		r.linksDown("sup")
 		r.call("stop", Ev{N: "top", X: "LocalSuperior.Release"}, true, r.ls.Release)
+	}
+	if inj.Kind == "drop" || inj.Kind == "stop-prs" || inj.Kind == "stop-lc" {
+		time.Sleep(150 * time.Millisecond) // let the pool side notice
+		r.countPools()
 	}
 	// who is still expected to answer the round's broadcast
 	alive := map[string]bool{}
